@@ -9,7 +9,7 @@ import json,os,re
 idx=json.load(open('/verif/mutants/index.json'))
 for e in idx:
     print(e['patch'], ' '.join(e['expected_checks']) if e['expected_checks'] else 'NONE')
-rev={'9bab1bf':'C01','e465f01':'C02 C01 C03','37ff623':'C05 C04','6daeb27':'C13','92c92c9':'C08','b46fea0':'C08','6bd3e41':'C09','830a23c':'C17','9cfb9d8':'C11','844916c':'C10','1d2619e':'C15','c8de8ae':'C15','94a4b9f':'C17'}
+rev={'9bab1bf':'C01','e465f01':'C02 C01 C03','37ff623':'C05 C04','6daeb27':'C13','92c92c9':'C08','b46fea0':'C08','6bd3e41':'C09','830a23c':'C17','9cfb9d8':'C11','844916c':'C10','1d2619e':'C15','c8de8ae':'C15','94a4b9f':'C17','b938d4a':'C07'}
 for f in sorted(os.listdir('/verif/mutants')):
     m=re.match(r'revert-([0-9a-f]+)-',f)
     if m: print(f, rev[m.group(1)])
